@@ -148,6 +148,8 @@ var textWordPool = []string{
 	"™", "tm", "№", "no", "ℌ", "h", "ᴬ", "㎒", "mhz",
 	// long tokens (identifiers, hashes): 65 and 150 bytes - readers that treat short and long strings differently
 	longToken65, longToken150,
+	// legal Go strings that are not valid UTF-8 (bytes from a Latin-1 source, a truncated multi-byte rune)
+	"caf\xff", "\xe6\x97", "zebra\xc3",
 }
 
 var (
